@@ -12,7 +12,7 @@ from harness.core import cq_list, cq_val, tok
 from nested_pandas import NestedFrame
 from nested_pandas.series.ext_array import NestedExtensionArray as NEA
 
-LAYOUTS = [l for l in gen.LAYOUTS if l != "missing_hidden"] + ["history"]
+LAYOUTS = list(gen.LAYOUTS) + ["history"]
 
 
 def rows_rm(ca, names=None):
